@@ -79,3 +79,199 @@ def online_variance(ctx, n, size, dim):
                 ctx.goal('variance[%d,%s]' % (r, d), False)
             else:
                 ctx.goal('variance[%d,%s]' % (r, d), ctx.eq(got, var, scale=None if ctx.sym else 1e-6))
+
+
+@harness('C18', 'derived_trace',
+         quick=[dict(n=3, size=2, ties=False, _shards=4), dict(n=2, size=2, ties=True), dict(n=2, size=3, ties=False)],
+         thorough=[dict(n=4, size=2, ties=False, _shards=16), dict(n=3, size=3, ties=False, _shards=8), dict(n=3, size=2, ties=True, _shards=8),
+                   dict(n=4, size=3, ties=False, _shards=16)],
+         functions=FUNCS + ['taurex.optimizer.optimizer:Optimizer.compute_derived_trace', 'taurex.util.util:quantile_corner'],
+         stubs=['mpi4py -> sequential serialising communicator double', 'nestle result -> symbolic samples/weights',
+                'np.interp -> numpy-exact contract model'], shard_depth=4, max_paths=80000,
+         outside=['real MPI transport', 'more ranks / samples than listed'])
+def derived_trace(ctx, n, size, ties):
+    """Real Optimizer.compute_derived_trace on `size` emulated ranks (samples strided over ranks, traces/weights
+    exchanged through the serialising double): on every rank the trace has one entry per sample IN SAMPLE ORDER
+    (trace[i] is the derived value of samples[i]) and the summaries equal the single-process ones -- for distinct
+    weights and (ties=True) for weights that may coincide."""
+    import taurex.core.priors as pm
+    import taurex.optimizer.nestle as nm
+    from taurex.util.util import quantile_corner
+    from . import stubs
+    from .optdoubles import NestleResult, nestle_double
+    from .c09 import _optimizer
+    from .common import patched
+    S = ctx.array('sample', (n, 1), gt=0, hint=(0.5, 3))
+    w = ctx.reals('weight', n, gt=0, hint=(0.1, 1))
+    if not ties:
+        for i in range(n):
+            for j in range(i + 1, n):
+                ctx.assume(ctx.ne(w[i], w[j]))
+    env = [patched(pm, stats=stubs.stats_stub)] if ctx.sym else []
+    for e in env:
+        e.__enter__()
+    try:
+        def rank_fn(r):
+            model, obs, opt = _optimizer(ctx, n, 1, ('a',))
+            opt.enable_derived('psum')
+            opt.compile_params()
+            res = NestleResult(S, w)
+            with patched(nm, nestle=nestle_double(res)):
+                opt._nestle_output = opt.store_nestle_output(res)
+            return opt.compute_derived_trace(0)
+        try:
+            results = run_ranks(size, rank_fn)
+        except Exception as ex:
+            ctx.goal('no_exception:%s' % type(ex).__name__, False)
+            return
+    finally:
+        for e in reversed(env):
+            e.__exit__(None, None, None)
+    expd = [S[i, 0] + 3.0 for i in range(n)]          # psum = p[0] + p[2], p[2] stays 3
+    q16, q50, q84 = quantile_corner(np.array(expd, dtype=object if ctx.sym else float), [0.16, 0.5, 0.84], weights=w.copy())
+    W = sum(w[1:], w[0])
+    for r in range(size):
+        dp = results[r]['psum_derived']
+        tr = dp['trace']
+        ctx.goal('trace_len[%d]' % r, len(tr) == n)
+        if len(tr) != n:
+            continue
+        for i in range(n):
+            ctx.goal('trace_in_sample_order[%d,%d]' % (r, i), ctx.eq(tr[i], expd[i]))
+        ctx.goal('summaries[%d]' % r, ctx.and_(ctx.eq(dp['value'], q50), ctx.eq(dp['sigma_m'], q50 - q16), ctx.eq(dp['sigma_p'], q84 - q50)))
+        ctx.goal('mean[%d]' % r, ctx.eq(dp['mean'] * W, sum((w[i] * expd[i] for i in range(1, n)), w[0] * expd[0])))
+
+
+def _squared(ctx, v):
+    """v*v for a returned standard deviation; in symbolic mode the argument of the sqrt application itself (the
+    identity to prove is then a rational one; that sqrt is applied to it is visible in the term)"""
+    import z3
+    from symx.core import Sym
+    if isinstance(v, Sym) and z3.is_app(v.t) and v.t.decl().name() == 'sqrt':
+        return Sym(v.t.arg(0)), True
+    return v * v, not ctx.sym
+
+
+@harness('C18', 'profile_errors',
+         quick=[dict(n=2, size=2), dict(n=2, size=3, _shards=2)],
+         thorough=[dict(n=3, size=2, _shards=16), dict(n=2, size=4, _shards=4), dict(n=3, size=3, _shards=16)],
+         functions=FUNCS + ['taurex.optimizer.optimizer:Optimizer.generate_profiles', 'taurex.model.simplemodel:SimpleForwardModel.compute_error',
+                            'taurex.optimizer.optimizer:Optimizer.sample_parameters'],
+         stubs=['mpi4py -> sequential serialising communicator double', 'Optimizer.sample_parameters -> every sample with its weight (random subset / +1e-300 not the subject)',
+                'forward model -> real SimpleForwardModel.compute_error on a state double whose spectrum/profiles are linear in the fitted parameter'],
+         shard_depth=3, outside=['real MPI transport'])
+def profile_errors(ctx, n, size):
+    """Real Optimizer.generate_profiles + SimpleForwardModel.compute_error + OnlineVariance.parallelVariance on
+    emulated ranks: every sample is processed by exactly one rank and the squared standard deviations of the native
+    spectrum / temperature profile equal the single-process weighted variances, on every rank, for every rank count
+    (including ranks that receive zero or one sample)."""
+    import taurex.core.priors as pm
+    import taurex.optimizer.nestle as nm
+    import taurex.util.util as uu
+    from taurex.model import TransmissionModel
+    from taurex.optimizer.nestle import NestleOptimizer
+    from taurex.data.spectrum.array import ArraySpectrum
+    from . import stubs
+    from .optdoubles import NestleResult, nestle_double
+    from .common import patched
+    from .c10 import _chem_env
+    S = ctx.array('sample', (n, 1), gt=0, hint=(0.5, 3))
+    w = ctx.reals('weight', n, gt=0, hint=(0.1, 1))
+    native = np.array([900.0, 1000.0, 1100.0])
+    processed = []
+
+    def build():
+        class _Chem(object):
+            hasCondensates = False
+            activeGasMixProfile = np.zeros((1, 2))
+            inactiveGasMixProfile = np.zeros((1, 2))
+            muProfile = np.ones(2)
+
+        class _TM(TransmissionModel):
+            def __init__(self):
+                with _chem_env(['H2O']):
+                    super().__init__(nlayers=2)
+                self.scale = 1.0
+
+                def fget(s):
+                    return s.scale
+
+                def fset(s, v):
+                    s.scale = v
+                self.add_fittable_param('scale', 'scale', fget, fset, 'linear', True, [0.1, 10.0])
+                self._fitting_parameters = self.fitting_parameters()
+
+            def initialize_profiles(self):
+                pass
+
+            @property
+            def chemistry(self):
+                return _Chem()
+
+            @property
+            def temperatureProfile(self):
+                return np.array([1000.0, 500.0]) * self.scale if not ctx.sym else \
+                    np.array([1000.0 * self.scale, 500.0 * self.scale], dtype=object)
+
+            def model(self, wngrid=None, cutoff_grid=True):
+                processed.append(self.scale)
+                spec = np.array([1.0, 2.0, 3.0]) * self.scale if not ctx.sym else \
+                    np.array([1.0 * self.scale, 2.0 * self.scale, 3.0 * self.scale], dtype=object)
+                return native, spec, np.zeros((2, 3)), None
+        m = _TM()
+        arr = np.array([[10000.0 / 1050.0, 1.0, 0.1, 0.6], [10000.0 / 950.0, 1.0, 0.1, 0.6]])
+        obs = ArraySpectrum(arr)
+        opt = NestleOptimizer(observed=obs, model=m, sigma_fraction=1.0)
+        for nme in list(m.fittingParameters):
+            if nme != 'scale':
+                opt.disable_fit(nme)
+        opt.compile_params()
+        res = NestleResult(S, w)
+        with patched(nm, nestle=nestle_double(res)):
+            opt._nestle_output = opt.store_nestle_output(res)
+        # every sample, with its own weight (sample_parameters draws a random subset and adds 1e-300 to each weight:
+        # neither is the subject here, and the 300-digit rational would only slow the solver down)
+        opt.sample_parameters = lambda sol: [(S[i, :], w[i]) for i in range(n)]
+        return opt
+    env = [patched(uu, random_int_iter=lambda total, frac: iter(range(total)))]
+    if ctx.sym:
+        env.append(patched(pm, stats=stubs.stats_stub))
+    for e in env:
+        e.__enter__()
+    try:
+        the_opt = build()       # one model/optimizer per path: per-rank state lives in compute_error's OnlineVariance objects
+
+        def rank_fn(r):
+            return the_opt.generate_profiles(0, None)
+        try:
+            results = run_ranks(size, rank_fn)
+        except Exception as ex:
+            ctx.goal('no_exception:%s' % type(ex).__name__, False)
+            return
+    finally:
+        for e in reversed(env):
+            e.__exit__(None, None, None)
+    W = sum(w[1:], w[0])
+    ww = [w[i] for i in range(n)]
+    mean = sum((ww[i] * S[i, 0] for i in range(1, n)), ww[0] * S[0, 0]) / W
+    var = sum((ww[i] * (S[i, 0] - mean) * (S[i, 0] - mean) for i in range(1, n)), ww[0] * (S[0, 0] - mean) * (S[0, 0] - mean)) / W
+    for r in range(size):
+        prof, spec = results[r]
+        nat = spec['native_std']
+        tp = prof['temp_profile_std']
+        if n < 2:
+            continue
+        for j, c in enumerate([1.0, 2.0, 3.0]):
+            v = nat[j]
+            if isinstance(v, float) and v != v:
+                ctx.goal('native_var[%d,%d]' % (r, j), False)
+            else:
+                sq, ok = _squared(ctx, v)
+                ctx.goal('native_var[%d,%d]' % (r, j), ctx.and_(ok, ctx.eq(sq, c * c * var, scale=None if ctx.sym else 1.0)))
+        for j, c in enumerate([1000.0, 500.0]):
+            v = tp[j]
+            if isinstance(v, float) and v != v:
+                ctx.goal('temp_var[%d,%d]' % (r, j), False)
+            else:
+                sq, ok = _squared(ctx, v)
+                ctx.goal('temp_var[%d,%d]' % (r, j), ctx.and_(ok, ctx.eq(sq, c * c * var, scale=None if ctx.sym else 1.0)))
